@@ -16,6 +16,8 @@ ASetW(x, ev) == SetW(x, ev) /\ H([op |-> "setw", x |-> x, ev |-> ev])
 ASetS(x, ev) == SetS(x, ev) /\ H([op |-> "sets", x |-> x, ev |-> ev])
 ARecordE(what, ev) == RecordE(what, ev) /\ H([op |-> "record", what |-> what, ev |-> ev])
 ADelRecE(ev) == DelRecE(ev) /\ H([op |-> "delrec", ev |-> ev])
+ATrainW(x, ev, each) == TrainW(x, ev, each) /\ H([op |-> "trainw", x |-> x, ev |-> ev, each |-> each])
+ADelTrainE(ev) == DelTrainE(ev) /\ H([op |-> "deltrain", ev |-> ev])
 AClampE(ev) == ClampE(ev) /\ H([op |-> "clamp", ev |-> ev])
 AStim(row) == Stim(row) /\ H([op |-> "stim", row |-> row])
 AIntegrate == Integrate /\ UNCHANGED hist
@@ -26,6 +28,8 @@ Next ==
   \/ \E what \in {"s", "i"}, ev \in EdgeViews : ARecordE(what, ev)
   \/ \E ev \in EdgeViews : AClampE(ev)
   \/ \E ev \in DelRecViews : ADelRecE(ev)
+  \/ \E ev \in EdgeViews, each \in BOOLEAN : ATrainW(3, ev, each)
+  \/ \E ev \in DelRecViews : ADelTrainE(ev)
   \/ \E row \in {1, 5} : AStim(row)
   \/ AIntegrate
 NetInit == Init /\ hist = <<>>
@@ -34,13 +38,16 @@ OpCode(h) == CASE h.op = "connect" -> 1 + h.pre * 7 + h.post * 3 + (IF h.ty = "P
                [] h.op = "sets" -> 73 + h.ev.k + (IF h.ev.kind = "type" THEN 0 ELSE IF h.ev.kind = "rows" THEN 19 ELSE 2) + (IF h.ev.ty = "P" THEN 0 ELSE 11)
                [] h.op = "record" -> 101 + (IF h.what = "s" THEN 0 ELSE 17) + h.ev.k + (IF h.ev.kind = "type" THEN 0 ELSE 2) + (IF h.ev.ty = "P" THEN 0 ELSE 11)
                [] h.op = "delrec" -> 201 + h.ev.k * 3 + (IF h.ev.kind = "type" THEN 0 ELSE IF h.ev.kind = "rows" THEN 29 ELSE 2) + (IF h.ev.ty = "P" THEN 0 ELSE 11)
+               [] h.op = "trainw" -> 251 + h.ev.k * 3 + (IF h.ev.kind = "type" THEN 0 ELSE 2) + (IF h.ev.ty = "P" THEN 0 ELSE 11) + (IF h.each THEN 5 ELSE 0)
+               [] h.op = "deltrain" -> 291 + h.ev.k * 3 + (IF h.ev.kind = "type" THEN 0 ELSE IF h.ev.kind = "rows" THEN 29 ELSE 2) + (IF h.ev.ty = "P" THEN 0 ELSE 11)
                [] h.op = "clamp" -> 151 + h.ev.k + (IF h.ev.kind = "type" THEN 0 ELSE 2) + (IF h.ev.ty = "P" THEN 0 ELSE 11)
                [] h.op = "stim" -> 181 + h.row
 RECURSIVE HashSeq(_, _)
 HashSeq(q, acc) == IF q = <<>> THEN acc ELSE HashSeq(Tail(q), (acc * 211 + OpCode(Head(q)) * 1009 + 7) % 1000003)
 Hash == HashSeq(hist, 17) % SAMPLE
 Emit == (obs # <<>> /\ Hash = SEEDK % SAMPLE) =>
-          PrintT(<<"NETSTATE", ToJson([hist |-> hist, edges |-> edges, w |-> w, s0 |-> s0, recs |-> recs, stim |-> stim, ecl |-> ecl, obs |-> obs])>>)
+          PrintT(<<"NETSTATE", ToJson([hist |-> hist, edges |-> edges, w |-> w, s0 |-> s0, recs |-> recs, stim |-> stim, ecl |-> ecl, obs |-> obs, effw |-> EffW,
+                                       tr |-> [i \in DOMAIN tr |-> [groups |-> {SeqOfSet(G) : G \in tr[i].groups}, val |-> tr[i].val]]])>>)
 Spec == NetInit /\ [][Next]_<<nvars, hist>>
 ASSUME PrintT(<<"MODEL", ToJson([nrows |-> NRows, K |-> K, T |-> T, rowsets |-> [i \in 1..Len(RowSets) |-> SeqOfSet(RowSets[i])]])>>)
 =============================================================================
